@@ -2,8 +2,13 @@ package an
 
 import (
 	"fmt"
+	"go/ast"
 	"go/token"
 	"go/types"
+	"reflect"
+	"regexp"
+	"strconv"
+	"strings"
 )
 
 // LintHit is one finding of the control-flow lints (AllLints): stale search
@@ -39,5 +44,394 @@ func AllLints(f *Func) []LintHit {
 		out = append(out, LintHit{"slice", fmt.Sprintf("%s#slice(%s)", f.Name, sr.Var.Name()), sr.Reset.Pos(),
 			fmt.Sprintf("slice %s is truncated in place and stored in the same loop: every stored value shares one backing array", sr.Var.Name())})
 	}
+	for _, sa := range SwappedArgs(f) {
+		out = append(out, LintHit{"swap", fmt.Sprintf("%s#swap(%s:%s,%s)", f.Name, sa.Callee, sa.A, sa.B), sa.Call.Pos(),
+			fmt.Sprintf("the call to %s passes %s where its parameter %s is expected and %s where %s is expected (same type, so it compiles)", sa.Callee, sa.A, sa.B, sa.B, sa.A)})
+	}
+	for _, bb := range BareBreaks(f) {
+		cond := Src(f.Pkg.Fset, bb.If.Cond)
+		if bb.If.Init != nil {
+			cond = Src(f.Pkg.Fset, bb.If.Init) + "; " + cond
+		}
+		out = append(out, LintHit{"break", fmt.Sprintf("%s#break(%s)", f.Name, cond), bb.If.Pos(),
+			fmt.Sprintf("`if %s { break }` abandons the loop at the first element that fails the filter; every later element is dropped (the skip idiom is continue)", Src(f.Pkg.Fset, bb.If.Cond))})
+	}
+	return out
+}
+
+// BareBreak is an `if cond { break }` (nothing else in the body) directly in
+// the body of a range loop, before any statement of the iteration that records
+// a result: the loop is abandoned at the first element satisfying cond. The
+// idiom for skipping an element is `continue`.
+type BareBreak struct {
+	If   *ast.IfStmt
+	Loop *ast.RangeStmt
+}
+
+// BareBreaks lists the bare breaks of f whose condition only inspects the
+// current element (mentions a loop variable and no variable assigned in the
+// loop).
+func BareBreaks(f *Func) []BareBreak {
+	info := f.Pkg.TypesInfo
+	var out []BareBreak
+	ast.Inspect(f.Decl.Body, func(n ast.Node) bool {
+		rs, ok := n.(*ast.RangeStmt)
+		if !ok {
+			return true
+		}
+		loopVars := map[types.Object]bool{}
+		for _, e := range []ast.Expr{rs.Key, rs.Value} {
+			if id, ok := e.(*ast.Ident); ok && id.Name != "_" {
+				if o := info.Defs[id]; o != nil {
+					loopVars[o] = true
+				}
+			}
+		}
+		assigned := map[types.Object]bool{}
+		ast.Inspect(rs.Body, func(m ast.Node) bool {
+			switch x := m.(type) {
+			case *ast.AssignStmt:
+				for _, l := range x.Lhs {
+					if id, ok := l.(*ast.Ident); ok {
+						if o := info.ObjectOf(id); o != nil && !loopVars[o] {
+							assigned[o] = true
+						}
+					}
+				}
+			case *ast.IncDecStmt:
+				if id, ok := x.X.(*ast.Ident); ok {
+					if o := info.ObjectOf(id); o != nil {
+						assigned[o] = true
+					}
+				}
+			}
+			return true
+		})
+		for _, st := range rs.Body.List {
+			is, ok := st.(*ast.IfStmt)
+			if !ok || is.Else != nil || len(is.Body.List) != 1 {
+				continue
+			}
+			initVars := map[types.Object]bool{}
+			var initRHS []ast.Expr
+			if is.Init != nil {
+				as, ok := is.Init.(*ast.AssignStmt)
+				if !ok || as.Tok != token.DEFINE {
+					continue
+				}
+				for _, l := range as.Lhs {
+					if id, ok := l.(*ast.Ident); ok {
+						initVars[info.Defs[id]] = true
+					}
+				}
+				initRHS = as.Rhs
+			}
+			br, ok := is.Body.List[0].(*ast.BranchStmt)
+			if !ok || br.Tok != token.BREAK || br.Label != nil {
+				continue
+			}
+			usesLoopVar, usesState := false, false
+			scan := func(e ast.Node) {
+				ast.Inspect(e, func(m ast.Node) bool {
+					if id, ok := m.(*ast.Ident); ok {
+						if o := info.Uses[id]; o != nil {
+							if loopVars[o] {
+								usesLoopVar = true
+							}
+							if assigned[o] && !initVars[o] {
+								usesState = true
+							}
+						}
+					}
+					return true
+				})
+			}
+			scan(is.Cond)
+			for _, e := range initRHS {
+				scan(e)
+			}
+			if usesLoopVar && !usesState {
+				out = append(out, BareBreak{is, rs})
+			}
+		}
+		return true
+	})
+	return out
+}
+
+// TagMismatch is a struct field whose json and yaml tags differ: the two
+// renderings of the same document would differ in that field's name or
+// omission rule.
+type TagMismatch struct {
+	Struct, Field, JSON, YAML string
+	Pos                       token.Pos
+}
+
+// TagMismatches returns, for the package in dir, the number of fields tagged
+// for both json and yaml and the fields whose two tags differ. Files limits the
+// scan to the given files (absolute names) when non-nil.
+func (c *Ctx) TagMismatches(dir string, files map[string]bool) (int, []TagMismatch) {
+	p := c.Pkg(dir)
+	if p == nil {
+		return 0, nil
+	}
+	n := 0
+	var out []TagMismatch
+	for _, file := range p.Syntax {
+		if files != nil && !files[c.Fset.Position(file.Pos()).Filename] {
+			continue
+		}
+		ast.Inspect(file, func(m ast.Node) bool {
+			ts, ok := m.(*ast.TypeSpec)
+			if !ok {
+				return true
+			}
+			st, ok := ts.Type.(*ast.StructType)
+			if !ok {
+				return true
+			}
+			for _, fl := range st.Fields.List {
+				if fl.Tag == nil {
+					continue
+				}
+				raw, err := strconv.Unquote(fl.Tag.Value)
+				if err != nil {
+					continue
+				}
+				tag := reflect.StructTag(raw)
+				j, okj := tag.Lookup("json")
+				y, oky := tag.Lookup("yaml")
+				if !okj || !oky {
+					continue
+				}
+				n++
+				if j != y {
+					name := ""
+					if len(fl.Names) > 0 {
+						name = fl.Names[0].Name
+					}
+					out = append(out, TagMismatch{ts.Name.Name, name, j, y, fl.Pos()})
+				}
+			}
+			return true
+		})
+	}
+	return n, out
+}
+
+// SwappedArg is a call that passes, at the position of parameter P, a value
+// named after parameter Q while the value named after P is passed at Q's
+// position.
+type SwappedArg struct {
+	Call   *ast.CallExpr
+	Callee string
+	A, B   string // the two argument names
+}
+
+func finalName(e ast.Expr) string {
+	switch x := ast.Unparen(e).(type) {
+	case *ast.Ident:
+		return strings.ToLower(x.Name)
+	case *ast.SelectorExpr:
+		return strings.ToLower(x.Sel.Name)
+	}
+	return ""
+}
+
+// SwappedArgs lists the calls of f (to functions with named parameters) where
+// two arguments carry each other's parameter names.
+func SwappedArgs(f *Func) []SwappedArg {
+	info := f.Pkg.TypesInfo
+	var out []SwappedArg
+	ast.Inspect(f.Decl.Body, func(n ast.Node) bool {
+		call, ok := n.(*ast.CallExpr)
+		if !ok {
+			return true
+		}
+		fn := Callee(info, call)
+		if fn == nil {
+			return true
+		}
+		sig, ok := fn.Type().(*types.Signature)
+		if !ok || sig.Variadic() && len(call.Args) > sig.Params().Len() {
+			return true
+		}
+		if len(call.Args) != sig.Params().Len() {
+			return true
+		}
+		names := make([]string, len(call.Args))
+		for i, a := range call.Args {
+			names[i] = finalName(a)
+		}
+		for i := 0; i < len(names); i++ {
+			for j := i + 1; j < len(names); j++ {
+				pi, pj := strings.ToLower(sig.Params().At(i).Name()), strings.ToLower(sig.Params().At(j).Name())
+				if pi == "" || pj == "" || pi == pj || pi == "_" || pj == "_" {
+					continue
+				}
+				if names[i] == pj && names[j] == pi && types.Identical(sig.Params().At(i).Type(), sig.Params().At(j).Type()) {
+					out = append(out, SwappedArg{call, FullName(fn), names[i], names[j]})
+				}
+			}
+		}
+		return true
+	})
+	return out
+}
+
+// SelfCopy is a composite literal of struct type T initialised, field by
+// field, from another value of type T (T{A: src.A, B: dup(src.B)}): a copy
+// constructor. Missing lists the fields of T the copy neither sets in the
+// literal nor assigns afterwards (through the variable the literal is bound to).
+type SelfCopy struct {
+	Lit     *ast.CompositeLit
+	Type    string
+	Mapped  int // fields initialised from the same-named field of the source
+	Missing []string
+}
+
+var copyName = regexp.MustCompile(`(?i)^(dup|copy|clone)`)
+
+func shortFuncName(f *Func) string { return f.Decl.Name.Name }
+
+// typeInSignature reports whether f has a receiver or parameter of type T, *T,
+// []T or []*T.
+func typeInSignature(f *Func, named *types.Named) bool {
+	sig := f.Obj.Type().(*types.Signature)
+	is := func(t types.Type) bool {
+		for i := 0; i < 3; i++ {
+			switch x := t.(type) {
+			case *types.Pointer:
+				t = x.Elem()
+			case *types.Slice:
+				t = x.Elem()
+			}
+		}
+		return types.Identical(t, named)
+	}
+	if r := sig.Recv(); r != nil && is(r.Type()) {
+		return true
+	}
+	for i := 0; i < sig.Params().Len(); i++ {
+		if is(sig.Params().At(i).Type()) {
+			return true
+		}
+	}
+	return false
+}
+
+// SelfCopies finds the copy constructors in f (at least two fields, and at
+// least half of the keyed fields, initialised from the same-named field of one
+// source value of the same type).
+func SelfCopies(f *Func) []SelfCopy {
+	info := f.Pkg.TypesInfo
+	parent := ParentMap(f.Decl.Body)
+	var out []SelfCopy
+	ast.Inspect(f.Decl.Body, func(n ast.Node) bool {
+		cl, ok := n.(*ast.CompositeLit)
+		if !ok {
+			return true
+		}
+		t := info.TypeOf(cl)
+		named, ok := t.(*types.Named)
+		if !ok {
+			return true
+		}
+		st, ok := named.Underlying().(*types.Struct)
+		if !ok || st.NumFields() < 2 {
+			return true
+		}
+		set := map[string]bool{}
+		mapped := 0
+		keyed := 0
+		var srcObj types.Object
+		if !strings.HasPrefix(named.Obj().Pkg().Path(), Mod) {
+			return true
+		}
+		for _, el := range cl.Elts {
+			kv, ok := el.(*ast.KeyValueExpr)
+			if !ok {
+				return true // positional literal
+			}
+			key, ok := kv.Key.(*ast.Ident)
+			if !ok {
+				return true
+			}
+			keyed++
+			set[key.Name] = true
+			// does the value mention src.<same field> with src of type T / *T ?
+			ast.Inspect(kv.Value, func(m ast.Node) bool {
+				se, ok := m.(*ast.SelectorExpr)
+				if !ok || se.Sel.Name != key.Name {
+					return true
+				}
+				bt := info.TypeOf(se.X)
+				if bt == nil {
+					return true
+				}
+				if p, ok := bt.Underlying().(*types.Pointer); ok {
+					bt = p.Elem()
+				}
+				if !types.Identical(bt, named) {
+					return true
+				}
+				if id, ok := ast.Unparen(se.X).(*ast.Ident); ok {
+					o := info.Uses[id]
+					if srcObj == nil || srcObj == o {
+						srcObj = o
+						mapped++
+						return false
+					}
+				}
+				return true
+			})
+		}
+		if !(mapped >= 3 && mapped*2 >= keyed) && !(copyName.MatchString(shortFuncName(f)) && typeInSignature(f, named)) {
+			return true
+		}
+		// the variable the literal is bound to
+		var bound types.Object
+		var cur ast.Node = cl
+		if u, ok := parent[cur].(*ast.UnaryExpr); ok {
+			cur = u
+		}
+		if as, ok := parent[cur].(*ast.AssignStmt); ok && len(as.Lhs) == len(as.Rhs) {
+			for i, r := range as.Rhs {
+				if r == cur {
+					if id, ok := as.Lhs[i].(*ast.Ident); ok {
+						bound = info.ObjectOf(id)
+					}
+				}
+			}
+		}
+		if bound != nil {
+			ast.Inspect(f.Decl.Body, func(m ast.Node) bool {
+				as, ok := m.(*ast.AssignStmt)
+				if !ok {
+					return true
+				}
+				for _, l := range as.Lhs {
+					if ix, ok := l.(*ast.IndexExpr); ok {
+						l = ix.X // bound.F[k] = v fills F
+					}
+					if se, ok := l.(*ast.SelectorExpr); ok {
+						if id, ok := ast.Unparen(se.X).(*ast.Ident); ok && info.Uses[id] == bound {
+							set[se.Sel.Name] = true
+						}
+					}
+				}
+				return true
+			})
+		}
+		sc := SelfCopy{Lit: cl, Type: named.Obj().Name(), Mapped: mapped}
+		for i := 0; i < st.NumFields(); i++ {
+			fl := st.Field(i)
+			if !set[fl.Name()] {
+				sc.Missing = append(sc.Missing, fl.Name())
+			}
+		}
+		out = append(out, sc)
+		return true
+	})
 	return out
 }
